@@ -486,6 +486,29 @@ fn near_unit<T: Tier + Dom<M = Sh>, V: Inner<T, N>, const N: usize>(rep: &mut Re
             let three: T = num_traits::cast::<f64, T>(3.0).unwrap();
             let v3x: [T; N] = u.map(|x| x * three);
             eq_v::<T, N>(ctx, &key("normalize_to/near-target"), V::mk(v3x).normalize_to(three).arr(), model::vscale(nm, Sh::exact(3.0)).map(|x| x.with_abs_err(8.0)));
+            // the angle with itself and with another direction that is nearly unit as well (both operands "already
+            // normalised": the lengths still divide out)
+            let a0 = cu.angle(cu).0.f();
+            ctx.t();
+            let eps = K_TOL * T::U * 16.0;
+            if !(a0.abs() <= (2.0 * eps).sqrt() * 2.0) {
+                ctx.fail(&key("angle/near-unit/with-itself"), || format!("angle(u,u) = {a0:e}"));
+            }
+            let pj = (pi + 1) % py.len();
+            let l2 = (py[pj].iter().map(|x| (x * x) as f64).sum::<f64>()).sqrt();
+            let w: [T; N] = std::array::from_fn(|j| num_traits::cast::<f64, T>(py[pj][j] as f64 * (1.0 - sg * 2f64.powi(-k) * 0.75) / l2).unwrap());
+            let mw = lift_v(w);
+            let (lu, lw) = (mmag, model::vdot(mw, mw).sqrt());
+            let (nu, nw) = (model::vdiv(mu, lu), model::vdiv(mw, lw));
+            let (df, sm) = (model::vsub(nu, nw), model::vadd(nu, nw));
+            let reference = 2.0 * model::vdot(df, df).sqrt().v.atan2(model::vdot(sm, sm).sqrt().v);
+            // (the 2-D angle is signed; its orientation is judged elsewhere)
+            let a = if N == 2 { cu.angle(V::mk(w)).0.f().abs() } else { cu.angle(V::mk(w)).0.f() };
+            ctx.t();
+            let tol = (eps / reference.sin().abs().max(1e-300)).min((2.0 * eps).sqrt() * 2.0) + eps;
+            if !((a - reference).abs() <= tol) {
+                ctx.fail(&key("angle/near-unit/pair"), || format!("angle(u,w) = {a:e}, reference {reference:e} (tolerance {tol:e}); w = {:?}", w));
+            }
         },
     );
 }
